@@ -185,24 +185,35 @@ def r6_r7_reader(ctx):
         if where == "chunk":
             # (a) remainder kept: extend_from_slice(reader_buffer, data[n..]) on the true edge of n < data.len()
             ext = [e for e in calls_norm(body, "Vec::extend_from_slice") if e.bb in some_region]
+            det = "no extend_from_slice(reader_buffer, <unread tail of the chunk>) in the chunk arm"
+
+            def tail_of_chunk(t):
+                """`data[n..]` or `data.split_at(n).1` for the chunk just received and the n of the copy"""
+                for s in subterms(t):
+                    cut = None
+                    if is_call_term(s, "::index") and len(s[3]) == 2 and isinstance(s[3][1], tuple) and s[3][1][0] == "agg" and "RangeFrom" in s[3][1][1] and s[3][1][3]:
+                        cut, whole = s[3][1][3][0], s[3][0]
+                    elif isinstance(s, tuple) and s and s[0] == "field" and str(s[2]) == "1" and is_call_term(s[1], "::split_at") and len(s[1][3]) == 2:
+                        cut, whole = s[1][3][1], s[1][3][0]
+                    if cut is not None and na is not None and strip_bb(cut) == strip_bb(na) and any(is_call_term(x, "UnboundedReceiver::<T>::recv") for x in subterms(whole)):
+                        return True
+                return False
+            good_ext = [e for e in ext if var_name(o.of_operand(e.args[0])) == "self.reader_buffer" and tail_of_chunk(o.of_operand(e.args[1]))]
+            # the tail may be skipped only where it is known to be empty: the false edge of `n < data.len()`, the true edge of `tail.is_empty()`
+            empty_edges = []
+            for cc in conds.all():
+                t = cc.term
+                if cc.kind == "bool" and isinstance(t, tuple) and t[0] == "binop" and t[1] == "Lt" and na is not None and strip_bb(t[2]) == strip_bb(na) and is_call_term(t[3], "Bytes::len", "::len"):
+                    empty_edges += cc.edges_for(False)
+                if cc.kind == "bool" and is_call_term(t, "::is_empty") and t[3] and tail_of_chunk(t[3][0]):
+                    empty_edges += cc.edges_for(True)
             oka = False
-            det = "no extend_from_slice(reader_buffer, data[n..]) in the chunk arm"
-            for e in ext:
-                dst = o.of_operand(e.args[0])
-                src = o.of_operand(e.args[1])
-                frm = None
-                for s in subterms(src):
-                    if isinstance(s, tuple) and s[0] == "agg" and "RangeFrom" in s[1] and s[3]:
-                        frm = s[3][0]
-                lt_edges = []
-                for cc in conds.all():
-                    t = cc.term
-                    if cc.kind == "bool" and isinstance(t, tuple) and t[0] == "binop" and t[1] == "Lt" and na is not None and strip_bb(t[2]) == strip_bb(na) and is_call_term(t[3], "Bytes::len"):
-                        lt_edges += cc.edges_for(True)
-                oka = var_name(dst) == "self.reader_buffer" and frm is not None and na is not None and strip_bb(frm) == strip_bb(na) and any(
-                    is_call_term(s, "UnboundedReceiver::<T>::recv") for s in subterms(src)) and bool(lt_edges) and cfg.edges_dominate(lt_edges, e.bb)
-                # and the false edge must not need it: every path from the copy to return either passes the extend or the false edge of n < len
-                det = "the unread tail data[n..] is appended to reader_buffer exactly when n < data.len()" if oka else "remainder handling: dst=%s from=%s guarded=%s" % (fmt(dst), fmt(frm), bool(lt_edges))
+            if good_ext:
+                oka, pth = cfg.must_pass(cfg.succ(c.bb), body.return_blocks(), via_blocks=[e.bb for e in good_ext], via_edges=empty_edges)
+                det = "the unread tail of the chunk is appended to reader_buffer on every way out that does not know it to be empty" if oka else \
+                    "a path from the copy to the return neither appends the unread tail nor has established that it is empty"
+            elif ext:
+                det = "remainder handling: extend_from_slice(%s, %s) is not the unread tail of this chunk cut at the n of the copy" % (fmt(o.of_operand(ext[0].args[0]))[:30], fmt(o.of_operand(ext[0].args[1]))[:60])
             ctx.ob("R01.6", "read:remainder-kept", oka, ext[0].site if ext else c.site, det if oka else det + " -> bytes of a chunk larger than the caller's buffer are lost")
         else:
             # (b) drain(reader_buffer, ..n) post-dominates the copy with the same n
